@@ -8,8 +8,8 @@ instances in both orientations, with clues on the board edges/corners and zero-v
   IDX-1  no computed (non-literal) index or slice bound is negative at any subscript (silent wrap-around)
   IDX-2  no subscript is out of range / no exception while posting the constraints
   DK     (through IDX-2 on both orientations with clues at the last row/column) height/width roles agree
-  PZ-X   (pzx.py) for twenty-five puzzles with compact rules: admitted answers == rule-obeying grids on tiny instances
-Not decided: that the posted constraints are the published rules for the other solvers, and on larger boards.
+  PZ-X   (pzx.py) for all thirty-one puzzles: admitted answers == rule-obeying grids on tiny instances
+Not decided: boards larger than the tiny instances.
 """
 
 from __future__ import annotations
@@ -342,7 +342,13 @@ def run(repo: Repo, rep: Report) -> None:
     if missing:
         raise AnalysisError(f"anchored solver modules vanished: {missing}")
     extra = [n for n in EXTRA if n in names]
-    jobs = [(repo.root, repo.overrides, n) for n in ANCHORED + extra]
+    todo = ANCHORED + extra
+    # in-memory edits (self-validation, sweeps) that touch only puzzle modules: only those solvers can change their verdict
+    touched = [k.split("/")[-1][:-3] for k in repo.overrides]
+    restricted = bool(repo.overrides) and all(k.startswith("cspuz/puzzle/") and t in todo for k, t in zip(repo.overrides, touched))
+    if restricted:
+        todo = [n for n in todo if n in touched]
+    jobs = [(repo.root, repo.overrides, n) for n in todo]
     with ProcessPoolExecutor(max_workers=16) as ex:
         results = list(ex.map(_job, jobs))
     for (root, ov, name), (st, items, n) in zip(jobs, results):
@@ -361,10 +367,11 @@ def run(repo: Repo, rep: Report) -> None:
         for rule in ("AKR", "IDX-1", "IDX-2", "DK"):
             if not any(r == rule for r, _, _ in items):
                 rep.ok(rule, f"{fn}: {n} non-square instances", points=n)
-    rep.floor("AKR", 26)
+    if not restricted:
+        rep.floor("AKR", 26)
     from . import pzx
 
-    pzx.run(repo, rep)
+    pzx.run(repo, rep, only=todo if restricted else None)
     rep.info(f"solver modules outside the property's anchor list, evaluated by the same rules: {extra}; "
              f"not evaluated (no fixture recipe): {sorted(n for n in names if n not in ANCHORED and n not in extra)}")
     rep.assume("instances: 2x3, 3x2, 3x4, 4x3 boards with clues in all corners and on the last row/column, zero-valued clues included; "
